@@ -154,7 +154,9 @@ def configs(tier, rng):
         out.append(dict(rt=rt, res=1.0, until=4, strict=False, sims=[{'duration': rt * 1.5}, {}], connect=[(0, 1)]))     # genuinely slow
         out.append(dict(rt=rt, res=1.0, until=4, strict=True, sims=[{'duration': rt * 1.5}, {}], connect=[(0, 1)]))
         out.append(dict(rt=rt, res=1.0, until=4, strict=True, sims=[{'duration': rt * 0.5}, {}], connect=[(0, 1)]))      # slow but within the period
-    out.append(dict(rt=None, res=1.0, until=4, strict=False, sims=[{'typ': 'event-based', 'self_steps': False, 'events': {'0': [2]}}, {}], connect=[]))
+    for evs in ([2], [4], [9], [3, 7]):
+        # set_event outside real-time mode is an error - whatever the requested time (before, at or after until)
+        out.append(dict(rt=None, res=1.0, until=4, strict=False, sims=[{'typ': 'event-based', 'self_steps': False, 'events': {'0': evs}}, {}], connect=[]))
     out.append(dict(rt=None, res=1.0, until=4, strict=False, sims=[{}, {}], connect=[(0, 1)]))
     if tier == 'thorough':
         for _ in range(300):
